@@ -264,9 +264,15 @@ func (s *Shard) UpdatePoints(points []models.Point) ([]uuid.UUID, error) {
 			// Merge data on update
 			var existingData models.PointAsMap
 			var incomingData models.PointAsMap
-			if err = msgpack.Unmarshal(sp.Data, &existingData); err != nil {
-				err = fmt.Errorf("could not unmarshal old data: %w", err)
-				return
+			// A point stored with an empty document has no data bytes at all
+			if len(sp.Data) > 0 {
+				if err = msgpack.Unmarshal(sp.Data, &existingData); err != nil {
+					err = fmt.Errorf("could not unmarshal old data: %w", err)
+					return
+				}
+			}
+			if existingData == nil {
+				existingData = make(models.PointAsMap)
 			}
 			if err = msgpack.Unmarshal(point.Data, &incomingData); err != nil {
 				err = fmt.Errorf("could not unmarshal new data: %w", err)
